@@ -49,6 +49,17 @@ async def _handshake_scenario(ctx, k):
     client = await sess.make_client()
     snoop = other.snoop_device("CAM")            # an in-process BaseClient: announces Never
     await sess.quiesce()
+    # a second in-process client that DOES want the camera's images (a guider): it announces Also, and afterwards its driver goes
+    # on using the snooping API for other devices / properties - which must not touch what it announced for CAM
+    import indi.message as M
+    third = D.build(dict(make_spec(), name="GUIDE"))(router=router)
+    gsnoop = third.snoop_device("CAM")
+    gsnoop.send_message(M.EnableBLOB(device="CAM", value=["Also", "Only"][k % 2]))
+    if k % 3:
+        third.snoop_device("CAM2")
+    if k % 3 == 2:
+        third.snoop_device("CAM", "TXT")
+    await sess.quiesce()
     marks = [len(l.s_writer.data) for l in client._vf_links]
     nsn = len(stack.client_view(snoop).get("CAM", {}))
     D.element_of(drv, "g", "t", "e0").value = f"text{k}"
@@ -64,6 +75,15 @@ async def _handshake_scenario(ctx, k):
         ctx.violate("control-connection-policy-not-never", f"control connection (announced Never) received {kinds[0]}", case)
     if "setBLOBVector" not in kinds[1] or "setTextVector" in kinds[1]:
         ctx.violate("blob-connection-policy-not-only", f"BLOB connection (announced Only) received {kinds[1]}", case)
+    gv = stack.client_view(gsnoop).get("CAM", {})
+    gblob = gv.get("IMG", {}).get("elements", {}).get("IMG_E0", (None, None))[1]
+    from vf import fullstack
+    if fullstack.norm_blob(gblob) != ("blob", b"blob%d" % k, ".b"):
+        ctx.violate("snooping-client-that-enabled-blobs-misses-the-blob" + (":after-snooping-something-else" if k % 3 else ""),
+                    f"the in-process client that announced {['Also', 'Only'][k % 2]} for CAM holds {gblob!r}", case)
+    gtext = gv.get("TXT", {}).get("elements", {}).get("TXT_E0", (None, None))[1]
+    if (k % 2 == 0) != (gtext == f"text{k}"):
+        ctx.violate("snooping-client-non-blob-traffic-against-its-policy", f"policy {['Also', 'Only'][k % 2]}: text shown {gtext!r}", case)
     sv = stack.client_view(snoop).get("CAM", {})
     if sv.get("TXT", {}).get("elements", {}).get("TXT_E0", (None, None))[1] != f"text{k}":
         ctx.violate("snooping-client-misses-non-blob-update", f"snooping client shows {sv.get('TXT')}", case)
